@@ -43,6 +43,20 @@ pub fn oracle(text: &str, target: GameMode, dspec: &DiffSpec, info: &mut CaseInf
         let full = calc_for_mode(&d, &map, target)?;
         info.comparisons += 1;
         same("final gradual value vs full one-shot", last, &full)?;
+        // the final value reached through Iterator::last (by value), on a fresh calculator and after some values
+        // have been consumed
+        for k in [0, 1, values.len() / 2] {
+            if k >= values.len() {
+                continue;
+            }
+            let mut g = GradualDifficulty::new_with_mode(d.clone(), &map, target).map_err(|e| format!("gradual ctor: {e}"))?;
+            for _ in 0..k {
+                let _ = g.next();
+            }
+            let via_last = g.last().ok_or_else(|| format!("last() after {k} values returned None although values remained"))?;
+            info.comparisons += 1;
+            same(&format!("last() after {k} consumed values vs full one-shot"), &via_last, &full)?;
+        }
     }
     Ok(values.len())
 }
